@@ -65,6 +65,14 @@ def make_case(cid, rng, schema, root, n_ops, every, name_k=0):
     from ..framework import is_v2
     full = [{"op": "lib_create" if is_v2(schema) else "create", "schema": schema, "dir": d}]
     marks = [None]
+    if name_k % 6 == 2:
+        # the database files in write-ahead-log mode, as Engine DJ itself leaves them (content then lives partly in -wal files
+        # until the last connection closes)
+        full.append({"op": "raw_exec", "sql": "PRAGMA journal_mode = WAL" if is_v2(schema) else "PRAGMA music.journal_mode = WAL"})
+        marks.append({"kind": "wal"})
+        if not is_v2(schema):
+            full.append({"op": "raw_exec", "sql": "PRAGMA perfdata.journal_mode = WAL"})
+            marks.append(None)
     if name_k % 5 == 3:
         # a library whose ids are those of a long-lived one (around 2^31 / 2^32 / 2^53)
         pre = GH.first_id_prelude(schema, GH.FIRST_IDS[(name_k // 5) % len(GH.FIRST_IDS)])
@@ -195,6 +203,9 @@ def judge_case(ctx, res):
                 ctx.violation(f"create_or_load-created-over-existing {fam}", f"{schema}: create_or_load reported created=true for an existing library", wit)
             if r["loaded_schema"] != schema or r["version_name"] != schema:
                 ctx.violation(f"create_or_load-schema-wrong {fam}", f"{schema}: create_or_load on an existing library reports {r['loaded_schema']!r}/{r['version_name']!r}", wit)
+        elif kind == "wal":
+            if "ret" in ev and "wal" in str(ev["ret"]).lower() or "77616c" in str(ev.get("ret")):
+                ctx.bump("libraries_in_wal_mode")
         elif kind == "stale_holder":
             ctx.bump("second_life_cases_with_the_first_library_still_held_open")
         elif kind == "second_life":
